@@ -48,9 +48,22 @@ namespace {
          return ids[&s] = static_cast<int>(strings.size()) - 1;
       }
       // intern `len` bytes at `p` (not necessarily NUL-terminated) in lexicon lx (1-based)
+      // Every second request is preceded by a request for a name or an atom with that spelling (operator, identifier, linkage,
+      // calling convention, literal, in turn): whoever asked first, the word is the one String of that content.
+      unsigned long detours = 0;
       const ipr::String& intern(int lx, const char* p, std::size_t len)
       {
-         return lex.at(lx - 1)->get_string(ipr::util::word_view(reinterpret_cast<const char8_t*>(p), len));
+         auto& l = *lex.at(lx - 1);
+         ipr::util::word_view w(reinterpret_cast<const char8_t*>(p), len);
+         switch (++detours % 10) {
+         case 1: (void)l.get_operator(w); break;
+         case 3: (void)l.get_identifier(w); break;
+         case 5: (void)l.get_linkage(w); break;
+         case 7: (void)l.get_calling_convention(w); break;
+         case 9: (void)l.get_literal(l.int_type(), w); break;
+         default: break;
+         }
+         return l.get_string(w);
       }
       Value intern_event(int lx, std::string_view bytes)
       {
